@@ -388,7 +388,7 @@ def run(ctx):
                 codes = [a for a in ico if is_code(a)]
                 if len(fq) == 1 and len(codes) == 1 and ico[fq[0]] == 1 and ico[codes[0]] == 1 and ik % 5 == 0 and len(ico) == 2:
                     idx = [x for x in walk(fq[0]) if x[0] == "call" and (x[1].endswith("::index") or x[1].endswith("::get")) and len(x[2]) == 2]
-                    oks_ = len(idx) == 1 and strip_site(idx[0][2][1]) == strip_site(o) if okd else False
+                    oks_ = len(idx) == 1 and strip_site(unwrap_cast(idx[0][2][1])) == strip_site(o) if okd else False
                     why = "segment = (code + first_quintant[code/5]) mod 5 : inverse of the writer's rotation for the same face"
             run.inst("C05.R4", "reader-code[%s]" % nm, okd and oks_, "origin = %s ; %s" % (fmt(o), why), where_des)
         # bounds check of the face number before it is used
